@@ -89,12 +89,20 @@ def _main(prop, tier, seed, replay_path):
     extra = {}
     for p in parts:
         for k, v in (p.get('extra') or {}).items():
+            if k == 'exhaustive':
+                continue
             if isinstance(v, bool):
                 extra[k] = extra.get(k, True) and v
             elif isinstance(v, (int, float)):
-                extra[k] = extra.get(k, 0) + v
+                extra[k] = max(extra.get(k, 0), v)
             else:
                 extra[k] = v
+    # `exhaustive` is true only if every leg enumerated its (bounded) domain completely; the legs that did are listed
+    stages = sorted(set(p.get('stage') for p in parts))
+    ex_legs = [st for st in stages if all((p.get('extra') or {}).get('exhaustive') is True for p in parts if p.get('stage') == st)]
+    extra['exhaustive'] = len(ex_legs) == len(stages) and not failures
+    extra['exhaustive_legs'] = ex_legs
+    extra['sampled_legs'] = [st for st in stages if st not in ex_legs]
     # known findings: probe each listed input against the real code
     known_lines = []
     try:
